@@ -5,6 +5,8 @@ cd "$(dirname "$0")/.."
 TIER="$1"; shift
 export VMON_OUT_DIR="$(mktemp -d /dev/shm/vmon-sweep.XXXXXX)"
 export VMON_SOLSTAT_BIN="$PWD/target/release/solstat"
+# the sanitizer legs of C15 rebuild from /repo; they are exercised by ./check C15 itself, not by this sweep
+export VMON_SKIP_SANITIZERS=1
 fail=0
 for seed in "$@"; do
   for p in C01 C02 C03 C04 C05 C06 C07 C08 C09 C10 C11 C12 C13 C14 C15 C16 C17 C18 C19; do
